@@ -375,6 +375,9 @@ func init() {
 					js = append(js, JobSpec{Group: "pipe", Harness: "VEmitKeepsUp", Mode: "bmc", Params: map[string]int{"cap": c, "freq": fq, "generator": 1, "clock": 2}, K: k})
 				}
 			}
+			// a long period (200 ms in nanoseconds): pacing code that treats long and short
+			// periods differently
+			js = append(js, JobSpec{Group: "pipe", Harness: "VEmitKeepsUp", Mode: "bmc", Params: map[string]int{"cap": 0, "freq": 200000000, "generator": 1, "clock": 2}, K: k})
 			return js
 		},
 	})
